@@ -5,6 +5,10 @@ import Ptn.C14.Model
   match <nU> <nV> <u:v> …   → `M=<u:v,…>` the matching of `HopcroftKarp(graph)()`
   cover <nU> <nV> <u:v> …   → `M=<u:v,…>;U=<u,…>;V=<v,…>;cert=<0|1>` for `minimum_vertex_cover`
                                (`cert` = the decidable certificate of `Props.certificate_sound`)
+  coverord <ka> <ku> <kv> <nU> <nV> <u:v> …  → as `cover`, computed by `minimumVertexCoverOrd` with the enumeration
+                               policies `policy ka / ku / kv` (0 ascending, 1 reversed, 2 rotated, 3 odd keys first,
+                               ≥4 a mix) for `for u in alist`, `list(u_cover)`, `list(v_cover)`
+                               (`Props.mvc_order_independent`: the same line as `cover` for every choice)
   errors: `assert` (graph construction), `assert-cover` (the assert of minimum_vertex_cover),
           `fuel-bfs`, `fuel-dfs`, `fuel-outer`, `fuel-explore` (a fuel ran out: never expected)
 -/
@@ -59,6 +63,15 @@ def handle (args : List String) : String :=
       | .error e => e.show
       | .ok (M, cu, cv) =>
         s!"M={showPairs M};U={showNats cu};V={showNats cv};cert={if certificateOk g M cu cv then 1 else 0}"
+  | "coverord" :: ka :: ku :: kv :: a :: b :: es =>
+    match ka.toNat?, ku.toNat?, kv.toNat? with
+    | some ka, some ku, some kv =>
+      withGraph a b es fun g =>
+        match minimumVertexCoverOrd ⟨policy ka, policy ku, policy kv⟩ g with
+        | .error e => e.show
+        | .ok (M, cu, cv) =>
+          s!"M={showPairs M};U={showNats cu};V={showNats cv};cert={if certificateOk g M cu cv then 1 else 0}"
+    | _, _, _ => "bad-op"
   | _ => "bad-op"
 
 end Ptn.C14
